@@ -25,6 +25,9 @@ def streams(rng, secret):
     # the default version need not be one of the allowed ones
     out['status+login/default-outside'] = dict(kind='connect', allowed=[340, 757], pv=757, initial=498,
                                conns=[([proto.frame(0, proto.string(json.dumps(status)))], None), (login_plain, None)])
+    # no default configured: the fallback is the latest allowed version
+    out['status+login/no-default'] = dict(kind='connect', allowed=[340, 757], pv=757, initial=None,
+                               conns=[([proto.frame(0, proto.string(json.dumps(status)))], None), (login_plain, None)])
     frames, cut = c10.build_server(ids, [('comp', 64), ('plugin', 5, 'a:b', b'xyz'), ('success',), ('ka', 1), ('ka', 2)])
     big = proto.frame(ids.chat, proto.string('{"text":"%s"}' % ('z' * 200)) + b'\x00' + bytes(16), 64)
     out['login+compression'] = dict(kind='connect', allowed=[757], pv=757, conns=[(frames + [big, proto.frame(ids.keep_alive, ids.b_keep_alive(3), 64)], None)])
@@ -184,8 +187,9 @@ def run(chk):
                     else:
                         import c09
                         h = c09.parse_conn(None, b''.join(hs[0].sends))
-                        if h[0] != sc['initial'] or h[3] != 2:
-                            what = 'fallback connection uses protocol %s next_state %s (the default is %d)' % (h[0], h[3], sc['initial'])
+                        dflt = sc['initial'] if sc['initial'] is not None else max(sc['allowed'])
+                        if h[0] != dflt or h[3] != 2:
+                            what = 'fallback connection uses protocol %s next_state %s (the default is %d)' % (h[0], h[3], dflt)
                 elif name.startswith('status+login') and ci == 0:
                     pass          # the status reply was complete: negotiation proceeds (C09)
                 elif ended_by_script:
